@@ -6,7 +6,7 @@
    A compressed block is the opaque letter TZ/TL of the input alphabet (CliBase.v): the round trip of
    zlib / LZO with paired persistent state is assumed there and exercised by the correspondence run. *)
 From LV Require Import Dec.CliBase Dec.CliFbProofs Dec.CliDec Dec.CliDecZ Dec.CliMsg Dec.CliInit Dec.RefEnc Dec.RefEncZ
-     Dec.CliRtBase Dec.CliRtSimple Dec.CliRtHextile Dec.CliRtZ Dec.CliRtTile Dec.CliRtZrle Dec.CliRtTrle Dec.CliRtTight Dec.CliCopyProofs Dec.CliRead Dec.CliReqProofs Dec.CliMsgProofs Dec.CliExamples.
+     Dec.CliRtBase Dec.CliRtSimple Dec.CliRtHextile Dec.CliRtZ Dec.CliRtTile Dec.CliRtZrle Dec.CliRtTrle Dec.CliRtTight Dec.CliCopyProofs Dec.CliRead Dec.CliReqProofs Dec.CliMsgProofs Dec.CliExamples Dec.CliMsgAll Dec.CliReadLink.
 Local Open Scope Z_scope.
 
 (* the partial, C-mirroring row writer coincides with the total spec-level blit inside the framebuffer *)
@@ -100,10 +100,11 @@ Proof. intros ch s x y w h tgt ts fresh Hs _. now apply roundtrip_zrle. Qed.
 
 (* The reference server keeps ONE deflate stream PER ENCODING (RFC 6143 7.7.6 for ZRLE; this repository's server:
    cl->compStream for Zlib, cl->zrleData for ZRLE): [ref_zrle] emits blocks of stream 5, [ref_zlib] of stream 0.
-   The client of HEAD feeds both into its single decompStream ([zrle_fresh] / [zrle_mark] with fix bit 11 off): the
-   two theorems above compose only when the session uses ONE of the two encodings.  After a Zlib rectangle the first
-   ZRLE rectangle of a conforming server is REFUSED by the mirror of HEAD - and by the real client paired with this
-   repository's server (finding C07-F4, notes/fix_C07_3.diff = fix bit 11) *)
+   Since 9fe693e (fix bit 11, in the baseline [init_state]) the client has an inflate stream per encoding too and
+   [zs_ready] holds in every state, so the two theorems above compose in any order.  The client BEFORE 9fe693e fed
+   both into its single decompStream: after a Zlib rectangle the first ZRLE rectangle of a conforming server was
+   REFUSED by the mirror - and by the real client paired with this repository's server (finding C07-F4, fixed);
+   regression witness *)
 Theorem C07_zlib_then_zrle_refused : forall s x y w h z data ts,
   fixed s 11 = false -> zact_get s 0 = true ->
   dec_zrle x y w h s (TZ 5 true z data :: ts) = Fail.
@@ -132,8 +133,9 @@ Example C07_roundtrip_zrle_nonvacuous :
   let f233 := mkfmt 8 8 false 7 7 3 0 3 6 in
   cp_agree f888 (variant_of (init_state f888 255 8 8)) /\ cp_agree f30 (variant_of (init_state f30 255 8 8)) /\
   cp_agree f565 (variant_of (init_state f565 31 8 8)) /\ cp_agree f233 (variant_of (init_state f233 7 8 8)) /\
-  fixed (init_state f888 255 8 8) 8 = true /\ fixed (init_state f888 255 8 8) 4 = true.
-Proof. cbv zeta. repeat split; reflexivity. Qed.
+  fixed (init_state f888 255 8 8) 8 = true /\ fixed (init_state f888 255 8 8) 4 = true /\
+  (forall s, fixed s 11 = true -> zs_ready c_zrlez c_zlibz s /\ zs_ready c_zlibz c_zrlez s) /\ fixed (init_state f888 255 8 8) 11 = true.
+Proof. cbv zeta. repeat split; try reflexivity; left; assumption. Qed.
 
 (* Tight: for every choice oracle - fill, basic / explicit copy filter, palette filter (1-bit or 8-bit indices, padded
    palette), gradient filter, any of the four zlib streams, any stream-reset bits, raw (< 12 bytes) or compressed
@@ -185,6 +187,46 @@ Proof. exact read_buffering. Qed.
 Example C07_read_buffering_nonvacuous :
   read_exact 5 (mkr [1; 2] [3; 4; 5; 6; 7] [1; 1; 3]) = Some ([1; 2; 3; 4; 5], mkr [6; 7] [] []).
 Proof. exact ex_read. Qed.
+
+(* ... and that buffered reader IS the byte source of the decoder mirror: for every segmentation schedule one read of
+   n bytes returns the bytes [rd n] returns on the token form of the pending bytes and leaves the same bytes pending
+   ([rst_ok]: at most RFB_BUF_SIZE bytes buffered, pending values are bytes) *)
+Theorem C07_read_exact_is_rd : forall n st s, 0 <= n -> rst_ok st ->
+  rd n s (toks (pending st)) =
+    match read_exact n st with
+    | Some (out, st') => Ok out s (toks (pending st'))
+    | None => More
+    end
+  /\ (forall out st', read_exact n st = Some (out, st') -> rst_ok st').
+Proof. exact read_exact_is_rd. Qed.
+
+(* hence EVERY adaptive reader ([rprog]: each read size and the continuation depend on all bytes read so far - every
+   decoder as far as it consumes plain bytes) has the same outcome over the buffered, arbitrarily segmented socket as
+   over the token stream, and two segmentations of the same bytes cannot be told apart *)
+Theorem C07_reader_schedule_independent : forall A (p : rprog A), rprog_ok p -> forall st s, rst_ok st ->
+  run_tok p s (toks (pending st)) =
+    match run_sock p st with
+    | Some (Some (a, st')) => Ok a s (toks (pending st'))
+    | Some None => Fail
+    | None => More
+    end.
+Proof. exact @reader_schedule_independent. Qed.
+Theorem C07_reader_two_schedules : forall A (p : rprog A) st1 st2, rprog_ok p -> rst_ok st1 -> rst_ok st2 ->
+  pending st1 = pending st2 ->
+  match run_sock p st1, run_sock p st2 with
+  | Some (Some (a1, r1)), Some (Some (a2, r2)) => a1 = a2 /\ pending r1 = pending r2
+  | Some None, Some None => True
+  | None, None => True
+  | _, _ => False
+  end.
+Proof. exact @reader_two_schedules. Qed.
+Example C07_reader_nonvacuous :
+  rst_ok (mkr [1; 2] [3; 4; 5; 6; 7] [1; 1; 3]) /\ rprog_ok (RRead 2 (fun l => RRead (be_val l mod 4) (fun m => RDone (l ++ m)))) /\
+  (forall s ts, rd_u16 s ts = run_tok (RRead 2 (fun l => RDone (be_val l))) s ts).
+Proof.
+  split; [split; [vm_compute; discriminate|repeat constructor; unfold byte_ok; lia]|]. split; [|exact rd_u16_is_rprog].
+  constructor; [lia|]. intros l. constructor; [apply Z.mod_pos_bound; lia|]. intros m. constructor.
+Qed.
 
 (* the client's own requests parse under the client-to-server grammar with the values it holds *)
 Theorem C07_client_requests_wf : forall f encs incr x y w h fuel,
@@ -239,3 +281,122 @@ Theorem C07_update_rect_raw : forall s x y w h rows,
   rect_steps s (toks (rect_header x y w h cE_Raw ++ ref_raw (bypp_of s) rows))
              (add_ev (set_fb s (blit_spec (c_fb s) x y rows)) (EvUpdate x y w h)).
 Proof. exact rect_step_raw. Qed.
+
+(* ---- message level for EVERY pixel encoding (audit item 4).  [pix_enc enc dec]: the encoding number and the decoder
+   HandleRFBServerMessage dispatches to (Raw, CopyRect, RRE, CoRRE, Hextile, Ultra, TRLE, Zlib, Tight, ZRLE, ZYWRLE).
+   Whenever the decoder turns a rectangle body into the state s1 (every round-trip theorem above has this form), header +
+   body is a step of the rectangle loop - dispatch, "Rect too large" test, decoder, GotFrameBufferUpdate - so
+   [C07_update_framing] composes rectangles of any mix of encodings, with the state (zlib streams, raw_buffer size,
+   framebuffer) threaded from rectangle to rectangle by [rects_run] *)
+Theorem C07_update_rect_any : forall s x y w h enc dec body s1,
+  pix_enc enc dec -> bpp_std s ->
+  0 <= x < 65536 -> 0 <= y < 65536 -> 0 <= w < 65536 -> 0 <= h < 65536 ->
+  x + w <= c_w s -> y + h <= c_h s ->
+  (forall ts, dec x y w h s (body ++ ts) = Ok tt s1 ts) ->
+  rect_steps s (toks (rect_header x y w h enc) ++ body) (add_ev s1 (EvUpdate x y w h)).
+Proof. exact rect_step_any. Qed.
+
+Lemma bypp_ok_std s : bypp_ok s -> bpp_std s.
+Proof. unfold bypp_ok, bpp_std. lia. Qed.
+
+(* instances: the round-trip theorems lifted to the message level *)
+Theorem C07_update_rect_rre : forall ch s x y w h tgt,
+  st_wf s -> bypp_ok s -> 0 <= x < 65536 -> 0 <= y < 65536 -> 0 <= w <= 65535 -> 0 <= h <= 65535 ->
+  x + w <= c_w s -> y + h <= c_h s -> rows_wf w h tgt -> Forall (Forall (px_ok (bypp_of s))) tgt ->
+  rect_steps s (toks (rect_header x y w h cE_RRE) ++ toks (ref_rre ch (bypp_of s) w h tgt))
+             (add_ev (set_fb s (blit_spec (c_fb s) x y tgt)) (EvUpdate x y w h)).
+Proof.
+  intros. apply (rect_step_any s x y w h cE_RRE dec_rre); auto using pe_rre, bypp_ok_std; try lia.
+  intros ts. apply roundtrip_rre; auto; lia.
+Qed.
+Theorem C07_update_rect_corre : forall ch s x y w h tgt,
+  st_wf s -> bypp_ok s -> 0 <= x < 65536 -> 0 <= y < 65536 -> 0 <= w <= 255 -> 0 <= h <= 255 ->
+  x + w <= c_w s -> y + h <= c_h s -> rows_wf w h tgt -> Forall (Forall (px_ok (bypp_of s))) tgt ->
+  3 + w * h <= cCoRREBound_num / (4 + bypp_of s) ->
+  rect_steps s (toks (rect_header x y w h cE_CoRRE) ++ toks (ref_corre ch (bypp_of s) w h tgt))
+             (add_ev (set_fb s (blit_spec (c_fb s) x y tgt)) (EvUpdate x y w h)).
+Proof.
+  intros. apply (rect_step_any s x y w h cE_CoRRE dec_corre); auto using pe_corre, bypp_ok_std; try lia.
+  intros ts. apply roundtrip_corre; auto; lia.
+Qed.
+Theorem C07_update_rect_hextile : forall ch s x y w h tgt,
+  st_wf s -> bypp_ok s -> 0 <= x < 65536 -> 0 <= y < 65536 -> 0 <= w < 65536 -> 0 <= h < 65536 ->
+  x + w <= c_w s -> y + h <= c_h s -> rows_wf w h tgt -> Forall (Forall (px_ok (bypp_of s))) tgt ->
+  rect_steps s (toks (rect_header x y w h cE_Hextile) ++ toks (ref_hextile ch (bypp_of s) w h tgt))
+             (add_ev (set_fb s (blit_spec (c_fb s) x y tgt)) (EvUpdate x y w h)).
+Proof.
+  intros. apply (rect_step_any s x y w h cE_Hextile dec_hextile); auto using pe_hextile, bypp_ok_std; try lia.
+  intros ts. apply roundtrip_hextile; auto; lia.
+Qed.
+Theorem C07_update_rect_zlib : forall s x y w h tgt fresh,
+  st_wf s -> bypp_ok s -> 0 <= x < 65536 -> 0 <= y < 65536 -> 1 <= w < 65536 -> 0 <= h < 65536 ->
+  x + w <= c_w s -> y + h <= c_h s -> rows_wf w h tgt -> Forall (Forall (px_ok (bypp_of s))) tgt ->
+  zs_ready c_zlibz c_zrlez s -> fresh = negb (zact_get s 0) ->
+  let cap := if c_rawsz s <? w * h * bypp_of s then w * h * bypp_of s else c_rawsz s in
+  rect_steps s (toks (rect_header x y w h cE_Zlib) ++ ref_zlib (c_fmt s) fresh tgt)
+             (add_ev (set_fb (zlib_mark (set_rawsz s cap)) (blit_spec (c_fb s) x y tgt)) (EvUpdate x y w h)).
+Proof.
+  intros. apply (rect_step_any s x y w h cE_Zlib dec_zlib); auto using pe_zlib, bypp_ok_std; try lia.
+  intros ts. apply roundtrip_zlib; auto; lia.
+Qed.
+Theorem C07_update_rect_ultra : forall s x y w h tgt,
+  st_wf s -> bypp_ok s -> 0 <= x < 65536 -> 0 <= y < 65536 -> 1 <= w < 65536 -> 1 <= h < 65536 ->
+  x + w <= c_w s -> y + h <= c_h s -> rows_wf w h tgt -> Forall (Forall (px_ok (bypp_of s))) tgt ->
+  let cap := if c_rawsz s <? w * h * bypp_of s then round4 (w * h * bypp_of s) else c_rawsz s in
+  rect_steps s (toks (rect_header x y w h cE_Ultra) ++ ref_ultra (c_fmt s) tgt)
+             (add_ev (set_fb (set_rawsz s cap) (blit_spec (c_fb s) x y tgt)) (EvUpdate x y w h)).
+Proof.
+  intros. apply (rect_step_any s x y w h cE_Ultra dec_ultra); auto using pe_ultra, bypp_ok_std; try lia.
+  intros ts. apply roundtrip_ultra; auto; lia.
+Qed.
+Theorem C07_update_rect_zrle : forall ch s x y w h tgt fresh,
+  st_wf s -> bpp_std s -> f_be (c_fmt s) = false -> cp_agree (c_fmt s) (variant_of s) -> fixed s 8 = true ->
+  0 <= x < 65536 -> 0 <= y < 65536 -> 0 <= w < 65536 -> 0 <= h < 65536 -> x + w <= c_w s -> y + h <= c_h s ->
+  rows_wf w h tgt -> Forall (Forall (cp_ok (variant_of s))) tgt ->
+  zs_ready c_zrlez c_zlibz s -> fresh = zrle_fresh s ->
+  let minsz := w * h * rbytes (variant_of s) * 2 + 4 in
+  let cap := if c_rawsz s <? minsz then minsz else c_rawsz s in
+  zlen (tiles_rows ch 0 (c_fmt s) false 64 (Z.to_nat (h / 64 + 1)) 0 w h tgt 0 []) <= cap - 4 ->
+  rect_steps s (toks (rect_header x y w h cE_ZRLE) ++ ref_zrle ch (c_fmt s) fresh w h tgt)
+             (add_ev (set_fb (zrle_mark (set_rawsz s cap)) (blit_spec (c_fb s) x y tgt)) (EvUpdate x y w h)).
+Proof.
+  intros. apply (rect_step_any s x y w h cE_ZRLE dec_zrle); auto using pe_zrle; try lia.
+  intros ts. apply roundtrip_zrle; auto; lia.
+Qed.
+Theorem C07_update_rect_trle : forall ch s x y w h tgt,
+  st_wf s -> bpp_std s -> f_be (c_fmt s) = false -> cp_agree (c_fmt s) (variant_of s) -> fixed s 4 = true ->
+  0 <= x < 65536 -> 0 <= y < 65536 -> 0 <= w < 65536 -> 0 <= h < 65536 -> x + w <= c_w s -> y + h <= c_h s ->
+  rows_wf w h tgt -> Forall (Forall (cp_ok (variant_of s))) tgt ->
+  let minsz := cTRLE_tile * cTRLE_tile * rbytes (variant_of s) * 2 in
+  let cap := if c_rawsz s <? minsz then minsz else c_rawsz s in
+  rect_steps s (toks (rect_header x y w h cE_TRLE) ++ ref_trle ch (c_fmt s) w h tgt)
+             (add_ev (set_fb (set_rawsz s cap) (blit_spec (c_fb s) x y tgt)) (EvUpdate x y w h)).
+Proof.
+  intros. apply (rect_step_any s x y w h cE_TRLE dec_trle); auto using pe_trle; try lia.
+  intros ts. apply roundtrip_trle; auto; lia.
+Qed.
+Theorem C07_update_rect_tight : forall ch s x y w h tgt z0 a b c d,
+  st_wf s -> f_be (c_fmt s) = false -> bypp_ok s -> c_zact s = [z0; a; b; c; d] -> gfmt_ok (c_fmt s) (bypp_of s) ->
+  0 <= x < 65536 -> 0 <= y < 65536 -> 1 <= w <= 2048 -> 1 <= h < 65536 -> x + w <= c_w s -> y + h <= c_h s ->
+  rows_wf w h tgt -> Forall (Forall (tpix_ok (c_fmt s))) tgt ->
+  rect_steps s (toks (rect_header x y w h cE_Tight) ++ fst (ref_tight ch (c_fmt s) w h tgt [a; b; c; d]))
+             (add_ev (set_fb (set_zact s (z0 :: snd (ref_tight ch (c_fmt s) w h tgt [a; b; c; d]))) (blit_spec (c_fb s) x y tgt))
+                     (EvUpdate x y w h)).
+Proof.
+  intros. apply (rect_step_any s x y w h cE_Tight dec_tight); auto using pe_tight, bypp_ok_std; try lia.
+  intros ts. apply roundtrip_tight; auto; lia.
+Qed.
+
+(* "Rect too large": a pixel rectangle that leaves the framebuffer is refused before any decoder runs, for every
+   continuation of the stream (UltraZip is exempt in the C code and not covered here; its own checks: C08) *)
+Theorem C07_update_rect_too_large : forall s x y w h enc dec ts,
+  pix_enc enc dec -> 0 <= x < 65536 -> 0 <= y < 65536 -> 0 <= w < 65536 -> 0 <= h < 65536 ->
+  c_w s < x + w \/ c_h s < y + h ->
+  do_rect s (toks (rect_header x y w h enc) ++ ts) = Fail.
+Proof. exact rect_too_large. Qed.
+
+(* LastRect ends the rectangle loop whatever count the message header announced *)
+Theorem C07_update_lastrect : forall s x y w h n ts,
+  0 <= x < 65536 -> 0 <= y < 65536 -> 0 <= w < 65536 -> 0 <= h < 65536 ->
+  rect_loop (S n) s (toks (rect_header x y w h cE_LastRect) ++ ts) = Ok tt s ts.
+Proof. exact lastrect_stops. Qed.
